@@ -139,7 +139,7 @@ m = {
  'hooks': {'guard': 'verif', 'enable': 'none - the checks read source only; no hooks exist in /repo', 'baseline_off_cmd': 'cd /repo && GOFLAGS=-mod=mod go test -vet=off -count=1 -timeout 25m ./...', 'source_commits': [], 'add_only': True},
  'engines': [{'name': 'gzverify', 'path': 'checker/', 'serves_properties': sorted(claims), 'kind_free_text': 'static analysis: go/packages + go/types + go/ssa path-effect engine (px), lock-guard, who-may-touch, value-flow, decision tables, algebraic normal forms, Lua AST (gopher-lua/parse); nothing of go-zero is executed'}],
  'checks': checks,
- 'notes': 'Every claim is a structural necessary condition decided on all paths of the current source, never the run-time behaviour itself; the clauses that are not decided are listed per property in level_note and DESIGN.md section 3/4.',
+ 'notes': 'Every claim is a structural necessary condition decided on all paths of the current source (static analysis only: type-checked syntax, SSA paths, call graph, Lua AST), never the run-time behaviour itself. quick = host configuration; thorough = 4 build configurations + in-memory self-test of the checker (informational). Clauses for which static analysis is NOT applicable (not claimed, no other technique substituted): ' + ' | '.join('%s: %s' % (i, claims[i][3]) for i in sorted(claims)),
  'not_applicable': na,
 }
 json.dump(m, open(os.path.join(V, 'MANIFEST.json'), 'w'), indent=1)
